@@ -21,6 +21,21 @@
 //!    dictionary message is re-sent, the Flight schema when nothing was sent;
 //!  * `dict_is_ordered`, dictionary ids;
 //!  * the physical encoding of the returned arrays (only their logical content).
+//!
+//! Signatures (stable keys of the known-findings file) never contain the sink,
+//! leaf types, field names or numbers; those are in the detail text:
+//!  * `C04|read-err|<message class>`: reader `Err` on bytes a writer produced
+//!    (Flight wrappers removed, cut after "in array of type", quoted names and
+//!    digits stripped);
+//!  * `C04|panic|<file>|<message class>`: panic of a writer / reader;
+//!  * `C04|row-mismatch|<cause>`: `enc:Union(mode)` if a union is on the blame
+//!    chain, else `enc:<outermost of Dict>below / REE / ListView / LargeListView>`,
+//!    else the innermost container and leaf class (`List>view`, `int`, ...);
+//!  * `C04|schema|<aspect>@<kind>` (name / nullable / metadata / type /
+//!    field-count / schema-metadata), `C04|batch-count`, `C04|batch-shape`,
+//!    `C04|batch-schema`, `C04|row-count`, `C04|len-mismatch`, `C04|column-type|<kind>`,
+//!    `C04|no-schema`, `C04|file-num-batches`, `C04|file-custom-metadata`,
+//!    `C04|unreadable|<file>|<message class>`.
 
 use std::io::Cursor;
 use std::sync::Arc;
@@ -75,23 +90,84 @@ fn kind(dt: &DataType) -> String {
     }
 }
 
-/// Signature part of a blame chain: its innermost two elements, the leaf
-/// coarsened to a class (bounded signature alphabet; the detail keeps the chain).
-fn tail2(chain: &str) -> String {
-    fn coarse(k: &str) -> String {
-        let (base, suffix) = match k.find('!') {
-            Some(i) => (&k[..i], &k[i..]),
-            None => (k, ""),
-        };
-        format!("{}{suffix}", leaf_class(base))
+/// Signature part of a blame chain (the detail keeps the full chain and the sink).
+///
+/// One defect should map to one signature whatever the leaf type, so the cause is
+/// keyed by an *encoding layer* on the chain (the layers whose physical form
+/// differs from the logical one); wrong data at or below such a layer is
+/// attributed to it:
+///  1. a union anywhere on the chain: `enc:Union(mode)` (the outermost one);
+///  2. else the outermost of Dict / REE / ListView / LargeListView: `enc:<layer>`,
+///     for Dict followed by the kind directly below it (`enc:Dict>ListView`:
+///     what kind of dictionary went stale);
+///  3. else the innermost container and the leaf class (`List>view`, `int`).
+fn row_cause(chain: &str) -> String {
+    fn strip(k: &str) -> &str {
+        match k.find('!') {
+            Some(i) => &k[..i],
+            None => k,
+        }
     }
-    let parts: Vec<&str> = chain.split('>').collect();
+    let parts: Vec<&str> = chain.split('>').map(strip).collect();
+    if let Some(u) = parts.iter().find(|p| p.starts_with("Union")) {
+        return format!("enc:{u}");
+    }
+    for (i, p) in parts.iter().enumerate() {
+        if matches!(*p, "REE" | "ListView" | "LargeListView") {
+            return format!("enc:{p}");
+        }
+        if *p == "Dict" {
+            return match parts.get(i + 1) {
+                Some(below) => format!("enc:Dict>{}", leaf_class(below)),
+                None => "enc:Dict".to_string(),
+            };
+        }
+    }
     let n = parts.len();
     let mut out: Vec<String> = parts[n.saturating_sub(2)..].iter().map(|s| s.to_string()).collect();
     if let Some(l) = out.last_mut() {
-        *l = coarse(l);
+        *l = leaf_class(l).to_string();
     }
     out.join(">")
+}
+
+/// Class of an error message: wrappers of the Flight decoder removed, cut after
+/// "in array of type", quoted names and numbers removed.
+fn err_class(m: &str) -> String {
+    let mut m = m.to_string();
+    for w in ["Decode error: ", "Error decoding ipc RecordBatch: ", "Error decoding ipc dictionary: ", "Arrow error: "] {
+        m = m.replace(w, "");
+    }
+    if let Some(i) = m.find("in array of type") {
+        m.truncate(i + "in array of type".len());
+    }
+    // quoted names
+    let mut out = String::new();
+    let mut in_q = false;
+    for c in m.chars() {
+        if c == '"' {
+            in_q = !in_q;
+            if !in_q {
+                out.push_str("\"_\"");
+            }
+        } else if !in_q {
+            out.push(c);
+        }
+    }
+    let out = strip_digits(&out);
+    out.chars().take(110).collect::<String>().trim().to_string()
+}
+
+/// Panic from arrow-rs where the property forbids it: keyed by file and message class only.
+fn panic_violation(ctx: &mut Ctx, op: &str, p: &vcore::mon::PanicInfo, detail: String) {
+    if p.is_model() {
+        ctx.inconclusive(&format!("harness model panic in {op}: {} @ {}", p.msg, p.loc));
+        return;
+    }
+    ctx.violation(
+        &format!("{P}|panic|{}|{}", p.file(), err_class(&p.msg)),
+        format!("{op}: panic: {} @ {}\n{detail}", p.msg, p.loc),
+    );
 }
 
 fn leaf_class(k: &str) -> &str {
@@ -172,6 +248,7 @@ fn schema_diff(exp: &Schema, got: &Schema) -> Option<(String, String)> {
     }
     for (a, b) in exp.fields().iter().zip(got.fields().iter()) {
         if let Some((aspect, k, text)) = field_diff(a, b) {
+            let k = if k.starts_with("Union") { "Union".to_string() } else { k };
             return Some((format!("{aspect}@{k}"), text));
         }
     }
@@ -275,24 +352,24 @@ impl Case<'_> {
 fn check_read(ctx: &mut Ctx, case: &Case, sink: &str, exp: &Expect, got_schema: &Schema, got: &[RecordBatch]) -> bool {
     ctx.eval();
     if let Some((sig, text)) = schema_diff(&exp.schema, got_schema) {
-        ctx.violation(&format!("{P}|{sink}|schema|{sig}"), case.detail(&format!("{sink}: schema differs: {text}\nexpected {:?}\ngot      {:?}", exp.schema, got_schema)));
+        ctx.violation(&format!("{P}|schema|{sig}"), case.detail(&format!("{sink}: schema differs: {text}\nexpected {:?}\ngot      {:?}", exp.schema, got_schema)));
         return false;
     }
     if got.len() != exp.batches.len() {
         ctx.violation(
-            &format!("{P}|{sink}|batch-count"),
+            &format!("{P}|batch-count"),
             case.detail(&format!("{sink}: wrote {} batches, read {}", exp.batches.len(), got.len())),
         );
         return false;
     }
     for (b, (batch, (rows, cols))) in got.iter().zip(exp.batches.iter()).enumerate() {
         if batch.schema().as_ref() != &exp.schema {
-            ctx.violation(&format!("{P}|{sink}|batch-schema"), case.detail(&format!("{sink}: batch {b} carries schema {:?}", batch.schema())));
+            ctx.violation(&format!("{P}|batch-schema"), case.detail(&format!("{sink}: batch {b} carries schema {:?}", batch.schema())));
             return false;
         }
         if batch.num_rows() != *rows || batch.num_columns() != cols.len() {
             ctx.violation(
-                &format!("{P}|{sink}|batch-shape"),
+                &format!("{P}|batch-shape"),
                 case.detail(&format!("{sink}: batch {b}: expected {rows} rows x {} cols, got {} x {}", cols.len(), batch.num_rows(), batch.num_columns())),
             );
             return false;
@@ -309,7 +386,7 @@ fn check_read(ctx: &mut Ctx, case: &Case, sink: &str, exp: &Expect, got_schema: 
 fn check_column(ctx: &mut Ctx, case: &Case, sink: &str, loc: &str, dt: &DataType, col: &ArrayRef, want: &[Val]) -> bool {
     if col.data_type() != dt {
         ctx.violation(
-            &format!("{P}|{sink}|column-type|{}", kind(dt)),
+            &format!("{P}|column-type|{}", kind(dt)),
             case.detail(&format!("{sink}: {loc} has type {} but the schema says {dt}", col.data_type())),
         );
         return false;
@@ -321,7 +398,7 @@ fn check_column(ctx: &mut Ctx, case: &Case, sink: &str, loc: &str, dt: &DataType
                 ctx.inconclusive(&format!("extract: {} @ {}", p.msg, p.loc));
             } else {
                 ctx.violation(
-                    &format!("{P}|{sink}|{}|unreadable|{}", kind(dt), strip_digits(&p.msg)),
+                    &format!("{P}|unreadable|{}|{}", p.file(), msg_class(&p.msg)),
                     case.detail(&format!("{sink}: {loc}: reading the returned array panicked: {} @ {}", p.msg, p.loc)),
                 );
             }
@@ -330,16 +407,16 @@ fn check_column(ctx: &mut Ctx, case: &Case, sink: &str, loc: &str, dt: &DataType
     };
     if got.len() != want.len() {
         ctx.violation(
-            &format!("{P}|{sink}|{}|len-mismatch", kind(dt)),
+            &format!("{P}|len-mismatch"),
             case.detail(&format!("{sink}: {loc}: expected {} rows got {}", want.len(), got.len())),
         );
         return false;
     }
     if let Some(i) = (0..want.len()).find(|i| got[*i] != want[*i]) {
         let full_chain = blame(dt, &want[i], &got[i]);
-        let chain = tail2(&full_chain);
+        let chain = row_cause(&full_chain);
         ctx.violation(
-            &format!("{P}|{sink}|{chain}|row-mismatch"),
+            &format!("{P}|row-mismatch|{chain}"),
             case.detail(&format!(
                 "{sink}: {loc} ({dt}) row {i} differs at {full_chain}: expected {:?} got {:?}\nexpected column {}\ngot column      {}",
                 want[i],
@@ -361,7 +438,7 @@ fn read_err(ctx: &mut Ctx, case: &Case, sink: &str, msg: &str) {
         return;
     }
     ctx.violation(
-        &format!("{P}|{sink}|read-err|{}", strip_digits(msg)),
+        &format!("{P}|read-err|{}", err_class(msg)),
         case.detail(&format!("{sink}: the reader failed on bytes the writer produced: {msg}")),
     );
 }
@@ -487,17 +564,17 @@ fn check_flight(ctx: &mut Ctx, case: &Case, sink: &str, exp_schema: &Schema, got
     let seq = case.seq;
     if let Some(gs) = got_schema {
         if let Some((sig, text)) = schema_diff(exp_schema, gs) {
-            ctx.violation(&format!("{P}|{sink}|schema|{sig}"), case.detail(&format!("{sink}: schema differs: {text}\nexpected {exp_schema:?}\ngot      {gs:?}")));
+            ctx.violation(&format!("{P}|schema|{sig}"), case.detail(&format!("{sink}: schema differs: {text}\nexpected {exp_schema:?}\ngot      {gs:?}")));
             return false;
         }
     } else if !got.is_empty() {
-        ctx.violation(&format!("{P}|{sink}|no-schema"), case.detail(&format!("{sink}: batches decoded but no schema")));
+        ctx.violation(&format!("{P}|no-schema"), case.detail(&format!("{sink}: batches decoded but no schema")));
         return false;
     }
     let total: usize = seq.rows.iter().sum();
     let got_total: usize = got.iter().map(|b| b.num_rows()).sum();
     if total != got_total {
-        ctx.violation(&format!("{P}|{sink}|row-count"), case.detail(&format!("{sink}: sent {total} rows, decoded {got_total}")));
+        ctx.violation(&format!("{P}|row-count"), case.detail(&format!("{sink}: sent {total} rows, decoded {got_total}")));
         return false;
     }
     for c in 0..seq.schema.fields().len() {
@@ -506,13 +583,13 @@ fn check_flight(ctx: &mut Ctx, case: &Case, sink: &str, exp_schema: &Schema, got
         let mut have: Vec<Val> = Vec::with_capacity(want.len());
         for (bi, b) in got.iter().enumerate() {
             if b.num_columns() != seq.schema.fields().len() {
-                ctx.violation(&format!("{P}|{sink}|batch-shape"), case.detail(&format!("{sink}: decoded batch {bi} has {} columns", b.num_columns())));
+                ctx.violation(&format!("{P}|batch-shape"), case.detail(&format!("{sink}: decoded batch {bi} has {} columns", b.num_columns())));
                 return false;
             }
             let col = b.column(c);
             if col.data_type() != dt {
                 ctx.violation(
-                    &format!("{P}|{sink}|column-type|{}", kind(dt)),
+                    &format!("{P}|column-type|{}", kind(dt)),
                     case.detail(&format!("{sink}: decoded batch {bi} column {c} has type {} but the schema says {dt}", col.data_type())),
                 );
                 return false;
@@ -524,7 +601,7 @@ fn check_flight(ctx: &mut Ctx, case: &Case, sink: &str, exp_schema: &Schema, got
                         ctx.inconclusive(&format!("extract: {} @ {}", p.msg, p.loc));
                     } else {
                         ctx.violation(
-                            &format!("{P}|{sink}|{}|unreadable|{}", kind(dt), strip_digits(&p.msg)),
+                            &format!("{P}|unreadable|{}|{}", p.file(), msg_class(&p.msg)),
                             case.detail(&format!("{sink}: decoded batch {bi} column {c}: reading the array panicked: {} @ {}", p.msg, p.loc)),
                         );
                     }
@@ -533,14 +610,14 @@ fn check_flight(ctx: &mut Ctx, case: &Case, sink: &str, exp_schema: &Schema, got
             }
         }
         if have.len() != want.len() {
-            ctx.violation(&format!("{P}|{sink}|{}|len-mismatch", kind(dt)), case.detail(&format!("{sink}: column {c}: {} rows vs {}", want.len(), have.len())));
+            ctx.violation(&format!("{P}|len-mismatch"), case.detail(&format!("{sink}: column {c}: {} rows vs {}", want.len(), have.len())));
             return false;
         }
         if let Some(i) = (0..want.len()).find(|i| have[*i] != want[*i]) {
             let full_chain = blame(dt, &want[i], &have[i]);
-            let chain = tail2(&full_chain);
+            let chain = row_cause(&full_chain);
             ctx.violation(
-                &format!("{P}|{sink}|{chain}|row-mismatch"),
+                &format!("{P}|row-mismatch|{chain}"),
                 case.detail(&format!(
                     "{sink}: column {c} ({dt}) concatenated row {i} differs at {full_chain}: expected {:?} got {:?}\nexpected {}\ngot      {}",
                     want[i],
@@ -598,7 +675,7 @@ fn writer_failed(ctx: &mut Ctx, case: &Case, sink: &str, w: &WriteRes, predicted
             ctx.reject();
             ctx.count(&format!("reject:{sink}:unsupported"), 1);
         } else {
-            ctx.panic_violation(&format!("{sink}-write"), p, case.detail(&format!("{sink}: the writer panicked")));
+            panic_violation(ctx, &format!("{sink}-write"), p, case.detail(&format!("{sink}: the writer panicked")));
         }
         return;
     }
@@ -616,6 +693,32 @@ fn writer_failed(ctx: &mut Ctx, case: &Case, sink: &str, w: &WriteRes, predicted
         }
     } else {
         ctx.count(&format!("reject:{sink}:other:{}", msg_class(&msg)), 1);
+    }
+}
+
+/// Debugging aid for replays (`VERIF_C04_DEBUG=1 vrun C04 --section S --case N`): the
+/// physical dictionary values of every top-level dictionary column per batch and
+/// what `ArrayData` equality says about consecutive batches.
+fn debug_dump(seq: &Seq) {
+    use arrow_array::cast::AsArray;
+    for c in 0..seq.schema.fields().len() {
+        if !matches!(seq.schema.field(c).data_type(), DataType::Dictionary(_, _)) {
+            continue;
+        }
+        let mut prev: Option<arrow_data::ArrayData> = None;
+        for (b, batch) in seq.batches.iter().enumerate() {
+            let d = batch.column(c).as_any_dictionary();
+            let v = d.values().to_data();
+            let eq = prev.as_ref().map(|p| guard(|| (p.len(), v.len(), *p == v, if v.len() >= p.len() { Some(v.slice(0, p.len()) == *p) } else { None })));
+            eprintln!(
+                "DEBUG col {c} batch {b}: keys {:?}\n  values(logical) {}\n  values(physical) {:?}\n  (old len, new len, old == new, new[..old len] == old) = {:?}",
+                d.keys(),
+                dump_vals(&extract(d.values().as_ref())),
+                v,
+                eq.map(|r| r.map_err(|p| p.msg))
+            );
+            prev = Some(v);
+        }
     }
 }
 
@@ -664,6 +767,9 @@ fn run_case(ctx: &mut Ctx, rng: &mut Rng, cfg: &SeqCfg, flight: bool) {
         }
     };
     let mut seq = seq;
+    if std::env::var("VERIF_C04_DEBUG").is_ok() {
+        debug_dump(&seq);
+    }
     selftest_sabotage(&mut seq);
     let seq = seq;
     let wo = gen_write_opts(rng);
@@ -742,12 +848,12 @@ fn run_case(ctx: &mut Ctx, rng: &mut Rng, cfg: &SeqCfg, flight: bool) {
                             }
                         }
                         Ok(Err(e)) => read_err(ctx, &Case { seq: &seq, opts: &wo, extra: format!("projection {proj:?}") }, "stream-proj", &e),
-                        Err(p) => ctx.panic_violation("stream-proj-read", &p, case.detail(&format!("projection {proj:?}"))),
+                        Err(p) => panic_violation(ctx, "stream-proj-read", &p, case.detail(&format!("projection {proj:?}"))),
                     }
                 }
             }
             Ok(Err(e)) => read_err(ctx, &case, "stream", &e),
-            Err(p) => ctx.panic_violation("stream-read", &p, case.detail("StreamReader panicked")),
+            Err(p) => panic_violation(ctx, "stream-read", &p, case.detail("StreamReader panicked")),
         }
         // push decoder on the same bytes, whole or chunked
         let chunks: Vec<usize> = match rng.below(4) {
@@ -764,10 +870,10 @@ fn run_case(ctx: &mut Ctx, rng: &mut Rng, cfg: &SeqCfg, flight: bool) {
                         classes(ctx, "decoder");
                     }
                 }
-                None => ctx.violation(&format!("{P}|decoder|no-schema"), case.detail("StreamDecoder consumed the stream but has no schema")),
+                None => ctx.violation(&format!("{P}|no-schema"), case.detail("StreamDecoder consumed the stream but has no schema")),
             },
             Ok(Err(e)) => read_err(ctx, &Case { seq: &seq, opts: &wo, extra: format!("chunks {chunks:?}") }, "decoder", &e),
-            Err(p) => ctx.panic_violation("decoder-read", &p, case.detail(&format!("StreamDecoder panicked, chunks {chunks:?}"))),
+            Err(p) => panic_violation(ctx, "decoder-read", &p, case.detail(&format!("StreamDecoder panicked, chunks {chunks:?}"))),
         }
     }
 
@@ -792,7 +898,7 @@ fn run_case(ctx: &mut Ctx, rng: &mut Rng, cfg: &SeqCfg, flight: bool) {
                 }
             }
             Ok(Err(e)) => read_err(ctx, &case, "encoder", &e),
-            Err(p) => ctx.panic_violation("encoder-read", &p, case.detail("reader panicked on StreamEncoder output")),
+            Err(p) => panic_violation(ctx, "encoder-read", &p, case.detail("reader panicked on StreamEncoder output")),
         }
     }
 
@@ -829,14 +935,14 @@ fn run_case(ctx: &mut Ctx, rng: &mut Rng, cfg: &SeqCfg, flight: bool) {
             Ok(Ok(out)) => {
                 let mut ok = check_read(ctx, &case, "file", &fexp, &out.schema, &out.batches);
                 if ok && out.num_batches != upto {
-                    ctx.violation(&format!("{P}|file|num_batches"), case.detail(&format!("num_batches() = {} but {upto} were written", out.num_batches)));
+                    ctx.violation(&format!("{P}|file-num-batches"), case.detail(&format!("num_batches() = {} but {upto} were written", out.num_batches)));
                     ok = false;
                 }
                 let mut want_md = file_md.clone();
                 want_md.sort();
                 want_md.dedup_by(|a, b| a.0 == b.0);
                 if ok && out.custom != want_md {
-                    ctx.violation(&format!("{P}|file|custom-metadata"), case.detail(&format!("custom metadata {:?} vs written {:?}", out.custom, want_md)));
+                    ctx.violation(&format!("{P}|file-custom-metadata"), case.detail(&format!("custom metadata {:?} vs written {:?}", out.custom, want_md)));
                     ok = false;
                 }
                 if ok {
@@ -849,7 +955,7 @@ fn run_case(ctx: &mut Ctx, rng: &mut Rng, cfg: &SeqCfg, flight: bool) {
                             }
                         }
                         Ok(Err(e)) => read_err(ctx, &Case { seq: &seq, opts: &wo, extra: format!("projection {proj:?}") }, "file-proj", &e),
-                        Err(p) => ctx.panic_violation("file-proj-read", &p, case.detail(&format!("projection {proj:?}"))),
+                        Err(p) => panic_violation(ctx, "file-proj-read", &p, case.detail(&format!("projection {proj:?}"))),
                     }
                     if upto > 0 {
                         let mut order: Vec<usize> = (0..upto).collect();
@@ -864,13 +970,13 @@ fn run_case(ctx: &mut Ctx, rng: &mut Rng, cfg: &SeqCfg, flight: bool) {
                                 }
                             }
                             Ok(Err(e)) => read_err(ctx, &Case { seq: &seq, opts: &wo, extra: format!("set_index order {order:?}") }, "file-index", &e),
-                            Err(p) => ctx.panic_violation("file-index-read", &p, case.detail(&format!("set_index order {order:?}"))),
+                            Err(p) => panic_violation(ctx, "file-index-read", &p, case.detail(&format!("set_index order {order:?}"))),
                         }
                     }
                 }
             }
             Ok(Err(e)) => read_err(ctx, &case, "file", &e),
-            Err(p) => ctx.panic_violation("file-read", &p, case.detail("FileReader panicked")),
+            Err(p) => panic_violation(ctx, "file-read", &p, case.detail("FileReader panicked")),
         }
     }
 
@@ -893,12 +999,12 @@ fn run_case(ctx: &mut Ctx, rng: &mut Rng, cfg: &SeqCfg, flight: bool) {
                     match &fo.known {
                         Some(k) => {
                             if let Some((sig, text)) = schema_diff(&exp_schema, k) {
-                                ctx.violation(&format!("{P}|{sink}|known-schema|{sig}"), fcase.detail(&format!("known_schema() differs: {text}")));
+                                ctx.violation(&format!("{P}|schema|{sig}"), fcase.detail(&format!("known_schema() differs: {text}")));
                                 ok = false;
                             }
                         }
                         None => {
-                            ctx.violation(&format!("{P}|{sink}|known-schema|none"), fcase.detail("with_schema() given but known_schema() is None"));
+                            ctx.violation(&format!("{P}|no-schema"), fcase.detail("with_schema() given but known_schema() is None"));
                             ok = false;
                         }
                     }
@@ -908,14 +1014,14 @@ fn run_case(ctx: &mut Ctx, rng: &mut Rng, cfg: &SeqCfg, flight: bool) {
                         Ok(Ok((s, got))) => {
                             if s.is_none() && with_schema {
                                 ctx.eval();
-                                ctx.violation(&format!("{P}|{sink}|no-schema"), fcase.detail("with_schema() given but the decoder saw no schema"));
+                                ctx.violation(&format!("{P}|no-schema"), fcase.detail("with_schema() given but the decoder saw no schema"));
                             } else if check_flight(ctx, &fcase, sink, &exp_schema, s.as_deref(), &got) {
                                 classes(ctx, sink);
                                 ctx.count("flight-decoded-batches", got.len() as u64);
                             }
                         }
                         Ok(Err(e)) => read_err(ctx, &fcase, sink, &e),
-                        Err(p) => ctx.panic_violation(&format!("{sink}-decode"), &p, fcase.detail("FlightRecordBatchStream panicked")),
+                        Err(p) => panic_violation(ctx, &format!("{sink}-decode"), &p, fcase.detail("FlightRecordBatchStream panicked")),
                     }
                     // utils::flight_data_to_batches handles schema + record batch messages only
                     if !fo.data.is_empty() && (!resend || !seq.has_dict()) {
@@ -928,7 +1034,7 @@ fn run_case(ctx: &mut Ctx, rng: &mut Rng, cfg: &SeqCfg, flight: bool) {
                                 }
                             }
                             Ok(Err(e)) => read_err(ctx, &fcase, &s2, &e),
-                            Err(p) => ctx.panic_violation(&format!("{s2}-decode"), &p, fcase.detail("flight_data_to_batches panicked")),
+                            Err(p) => panic_violation(ctx, &format!("{s2}-decode"), &p, fcase.detail("flight_data_to_batches panicked")),
                         }
                     }
                 }
@@ -949,7 +1055,7 @@ fn run_case(ctx: &mut Ctx, rng: &mut Rng, cfg: &SeqCfg, flight: bool) {
                     ctx.reject();
                     ctx.count(&format!("reject:{sink}:unsupported"), 1);
                 } else {
-                    ctx.panic_violation(&format!("{sink}-encode"), &p, fcase.detail("FlightDataEncoder panicked"));
+                    panic_violation(ctx, &format!("{sink}-encode"), &p, fcase.detail("FlightDataEncoder panicked"));
                 }
             }
         }
@@ -970,7 +1076,7 @@ fn run_case(ctx: &mut Ctx, rng: &mut Rng, cfg: &SeqCfg, flight: bool) {
                             }
                         }
                         Ok(Err(e)) => read_err(ctx, &fcase, sink, &e),
-                        Err(p) => ctx.panic_violation(&format!("{sink}-decode"), &p, fcase.detail("FlightRecordBatchStream panicked")),
+                        Err(p) => panic_violation(ctx, &format!("{sink}-decode"), &p, fcase.detail("FlightRecordBatchStream panicked")),
                     }
                 }
                 Ok(Err(e)) => {
@@ -983,7 +1089,7 @@ fn run_case(ctx: &mut Ctx, rng: &mut Rng, cfg: &SeqCfg, flight: bool) {
                     if p.is_rejection() {
                         ctx.reject();
                     } else {
-                        ctx.panic_violation(&format!("{sink}-encode"), &p, fcase.detail("batches_to_flight_data panicked"));
+                        panic_violation(ctx, &format!("{sink}-encode"), &p, fcase.detail("batches_to_flight_data panicked"));
                     }
                 }
             }
